@@ -301,6 +301,8 @@ func corpus() [][2]geom.Polygonal {
 		{geom.MultiPolygon{}, geom.Polygon{}},
 		{unit, geom.Polygon{}},
 		{unit, geom.MultiPolygon{{}}},
+		{unit, geom.MultiPolygon{}}, // Bounds() of a multi-polygon without members
+		{geom.MultiPolygon{}, unit},
 		{geom.MultiPolygon{{}, sq(0, 0, 2, 2)}, sq(1, 1, 3, 3)},
 		{geom.MultiPolygon{{}, sq(0, 0, 2, 2)}, bx(-1, -1, 3, 3)},
 		{bx(-1, -1, 3, 3), geom.MultiPolygon{sq(0, 0, 2, 2), {}}},
@@ -675,8 +677,19 @@ func impl() {
 			}
 			var sb strings.Builder
 			sb.WriteString("ok")
-			for _, v := range []float64{area(a), area(b), area(a.Intersection(b)), area(a.Union(b)), area(a.Difference(b)), area(a.XOr(b))} {
+			// Area() of the operands first, then of the four results; the operands are compared with the
+			// snapshot after the Area calls and again at the end (Area and the operations are read-only)
+			aa, ab := area(a), area(b)
+			if before != toks2(a, b) {
+				res = "mutated by-Area"
+				return
+			}
+			for _, v := range []float64{aa, ab, area(a.Intersection(b)), area(a.Union(b)), area(a.Difference(b)), area(a.XOr(b))} {
 				sb.WriteString(" " + vproto.F2H(v))
+			}
+			if before != toks2(a, b) {
+				res = "mutated"
+				return
 			}
 			res = sb.String()
 		})
